@@ -18,6 +18,7 @@ relator-driven elimination).
 -/
 import DSymVerif.Model.Stabilizer
 import DSymVerif.Proofs.StabilizerProduct
+import DSymVerif.Proofs.StabilizerGens
 
 namespace DSymVerif.C13
 open DSymVerif DSymVerif.SpecC11 DSymVerif.SpecC13 DSymVerif.StabP DSymVerif.CosetP DSymVerif.Cosets
@@ -175,5 +176,41 @@ example : (match Stab.coreTable (Table.ofView 2 s3Table) with
 /-- a table that is not the orbit of the base pair fails the certificate (the input itself) -/
 example : intersectionCertificate s3Table signTable s3Table 2 = false := by decide +kernel
 example : coreCertificate s3Table s3Table 2 = false := by decide +kernel
+
+/-- ✔ `stabilizer_gens_fix_base`.  On a complete, inverse-consistent table every generator the
+    model of `stabilizer` returns (Schreier form `w_x · g · w_y⁻¹` with `x·g = y`, freely
+    reduced), traced from the base row, returns to it — for every base row, every relator
+    list and whatever `close_relations_in_place` deduced. -/
+theorem stabilizer_gens_fix_base (t : Tab) (n : Nat) (hcomp : complete t n = true)
+    (hinv : inverseConsistent t n = true) (base : Nat) (rels gens srels : List (List Int))
+    (h : Stab.stabilizer base rels (Table.ofView n t) = .ok (gens, srels)) :
+    ∀ w ∈ gens, traceWord t n base w = some base :=
+  stabilizer_gens_fix hcomp (inverseConsistent_spec hinv) h
+
+/-! non-vacuity: the model returns the three outputs pinned by `test_stabilizer` literally, and
+    the stabilisers of rows 0 and 1 in `S3 / ⟨b⟩` -/
+
+def v4Table : Tab := #[#[1, 2, 0, 1, 2, 0], #[0, 3, 1, 0, 3, 1], #[3, 0, 2, 3, 0, 2], #[2, 1, 3, 2, 1, 3]]
+def z3Index2 : Tab := #[#[1, 0, 0, 1, 0, 0], #[0, 1, 1, 0, 1, 1]]
+def pinned3 : Tab := #[#[0, 1, 1, 1, 0, 1, 1, 1], #[1, 0, 0, 0, 1, 0, 0, 0]]
+
+example : Stab.stabilizer 0 [[1, 1], [2, 2], [3, 3], [1, 2, 1, 2], [1, 3, 1, 3], [2, 3, 2, 3]]
+    (Table.ofView 3 v4Table) = .ok ([[3]], [[1, 1]]) := by decide +kernel
+example : Stab.stabilizer 0 [[1, 2, -1, -2], [1, 3, -1, -3], [2, 3, -2, -3]] (Table.ofView 3 z3Index2) =
+    .ok ([[-1, -1], [2], [3]], [[2, 3, -2, -3], [1, 3, -1, -3], [1, 2, -1, -2]]) := by decide +kernel
+example : Stab.stabilizer 0
+    [[2, 2], [3, 3], [4, 4], [1, 2, -1, -2], [1, 3, -1, -3], [1, 4, -1, -4], [2, 4, 3, 2, 4, 3]]
+    (Table.ofView 4 pinned3) =
+    .ok ([[1], [3, -2], [4, -2]],
+      [[2, 3, -2, -3], [1, 3, -1, -3], [1, 2, -1, -2], [1, 2, 3, -2, -1, 2, -3, -2]]) := by decide +kernel
+example : complete s3Table 2 = true ∧ inverseConsistent s3Table 2 = true := by decide +kernel
+example : Stab.stabilizer 0 [[1, 1], [2, 2], [1, 2, 1, 2, 1, 2]] (Table.ofView 2 s3Table) =
+    .ok ([[2]], [[1, 1]]) := by decide +kernel
+example : Stab.stabilizer 1 [[1, 1], [2, 2], [1, 2, 1, 2, 1, 2]] (Table.ofView 2 s3Table) =
+    .ok ([[1, 2, -1]], [[1, 1]]) := by decide +kernel
+/-- D13/D14 (repaired): free group, empty relator -/
+example : Stab.stabilizer 0 [] (Table.ofView 1 #[#[0, 0]]) = .ok ([[1]], []) := by decide +kernel
+example : Stab.stabilizer 0 [[], [1, 2, -1, -2]] (Table.ofView 2 #[#[0, 0, 0, 0]]) =
+    .ok ([[1], [2]], [[1, 2, -1, -2]]) := by decide +kernel
 
 end DSymVerif.C13
